@@ -11,20 +11,26 @@
 (* check runs that configuration as a negative control of the model.             *)
 (* Every schedule is exported (VEC) and replayed on the real parsers.            *)
 EXTENDS ReaderFaults, TLC, Json
-CONSTANTS N, Loop, Frags, MaxPat
-VARIABLES sch, reqs, tail, s, ri, got, out, st
-vars == <<sch, reqs, tail, s, ri, got, out, st>>
+CONSTANTS N, Loop, Frags, MaxPat, Retry
+VARIABLES sch, reqs, tail, s, ri, got, out, st, retried
+vars == <<sch, reqs, tail, s, ri, got, out, st, retried>>
 
 Pats == UNION { [1..n -> Frags] : n \in 1..MaxPat }
 \* no two consecutive calls without progress (also cyclically): such a source may legitimately stall any reader
 PatOk(p) == /\ \E i \in 1..Len(p) : p[i] # 0
             /\ \A i \in 1..Len(p) : ~(p[i] = 0 /\ p[(i % Len(p)) + 1] = 0)
-Scheds == { [pat |-> p, end |-> e, k |-> k] : p \in {q \in Pats : PatOk(q)}, e \in {"eof", "eofdata", "err", "errdata"}, k \in 0..N }
+Scheds == { [pat |-> p, end |-> e, k |-> k] : p \in {q \in Pats : PatOk(q)}, e \in {"eof", "eofdata", "err", "errdata", "transient", "eofmore"}, k \in 0..N }
 ReqSeqs == { <<>>, <<1>>, <<2>>, <<3>>, <<1, 2>>, <<2, 3>>, <<3, 1, 1>>, <<2, 2, 2>>, <<4>>, <<1, 4>> }
 
-Init == /\ sch \in { x \in Scheds : x.end \in {"err", "errdata"} \/ x.k = 0 }
+\* (a consumer that reads to the END takes an end reported early for the end: eofmore is excluded with a tail;
+\*  Retry = TRUE: the caller repeats, once, a request that failed without having consumed anything - a decoder object polled
+\*  on a queue, or retried after a time-out)
+Init == /\ sch \in { x \in Scheds : x.end \in {"err", "errdata", "transient", "eofmore"} \/ x.k = 0 }
         /\ reqs \in ReqSeqs /\ tail \in BOOLEAN
-        /\ s = [pos |-> 0, i |-> 0] /\ ri = 1 /\ got = <<>> /\ out = <<>> /\ st = "run"
+        /\ ~(sch.end = "eofmore" /\ tail)
+        /\ Retry => (Passing(sch) /\ ~tail)
+        /\ retried = FALSE
+        /\ s = [pos |-> 0, i |-> 0, hit |-> FALSE] /\ ri = 1 /\ got = <<>> /\ out = <<>> /\ st = "run"
         /\ PrintT("VEC " \o ToJson(sch))
 
 Bytes(a, b) == [j \in 1..(b - a) |-> a + j]
@@ -34,9 +40,12 @@ FillStep ==
   /\ LET need == reqs[ri] - Len(got)
          r == SrcRead(sch, N, s, need)
          g2 == got \o Bytes(s.pos, r.s.pos)
+         again == r.res # "nil" /\ Retry /\ ~retried /\ got = <<>> /\ r.n = 0 /\ r.s.hit /\ ~s.hit /\ Len(g2) # reqs[ri]
      IN /\ s' = r.s
+        /\ retried' = (retried \/ again)
         /\ IF Len(g2) = reqs[ri] \/ (~Loop /\ r.res = "nil" /\ r.n > 0)   \* filled (io.ReadFull drops an error that comes with the last byte)
            THEN out' = Append(out, g2) /\ got' = <<>> /\ ri' = ri + 1 /\ st' = "run"
+           ELSE IF again THEN UNCHANGED <<out, got, ri, st>>                  \* nothing consumed: the caller repeats the request
            ELSE IF r.res # "nil" THEN st' = "err" /\ UNCHANGED <<out, got, ri>>   \* ErrUnexpectedEOF / the source's error
            ELSE got' = g2 /\ UNCHANGED <<out, ri, st>>
   /\ UNCHANGED <<sch, reqs, tail>>
@@ -47,8 +56,8 @@ TailStep ==
      /\ s' = r.s /\ got' = got \o Bytes(s.pos, r.s.pos)
      /\ st' = IF r.res = "eof" THEN "ok" ELSE IF r.res = "err" THEN "err" ELSE "run"
      /\ out' = IF r.res = "eof" THEN Append(out, got') ELSE out
-  /\ UNCHANGED <<sch, reqs, tail, ri>>
-Finish == st = "run" /\ ri > Len(reqs) /\ ~tail /\ st' = "ok" /\ UNCHANGED <<sch, reqs, tail, s, ri, got, out>>
+  /\ UNCHANGED <<sch, reqs, tail, ri, retried>>
+Finish == st = "run" /\ ri > Len(reqs) /\ ~tail /\ st' = "ok" /\ UNCHANGED <<sch, reqs, tail, s, ri, got, out, retried>>
 Next == FillStep \/ TailStep \/ Finish
 Spec == Init /\ [][Next]_vars /\ WF_vars(Next)     \* the consumer keeps calling (needed for Terminates only)
 
@@ -63,6 +72,11 @@ Slices(q, i, from) == IF i > Len(q) THEN <<>> ELSE <<Bytes(from, from + q[i])>> 
 Expected == Slices(reqs, 1, 0) \o (IF tail THEN <<Bytes(Need, N)>> ELSE <<>>)
 
 ScheduleIndependent == st = "ok" => out = Expected
-FailsIffObserved == st \in {"ok", "err"} => ((st = "err") <=> (Need > N \/ Observed(sch, N, Consumed, Probed)))
+FailsIffObserved == (~Retry /\ st \in {"ok", "err"}) => ((st = "err") <=> (Need > N \/ Observed(sch, N, Consumed, Probed)))
+\* a passing failure that falls between two requests is invisible to a caller that repeats the request it hit
+RECURSIVE Sums(_, _, _)
+Sums(q, i, acc) == IF i > Len(q) THEN {acc} ELSE {acc} \cup Sums(q, i + 1, acc + q[i])
+AtBoundary == sch.k \in Sums(reqs, 1, 0)
+RetryTransparent == (Retry /\ AtBoundary /\ st \in {"ok", "err"}) => ((st = "err") <=> (Need > N)) /\ (st = "ok" => out = Expected)
 Terminates == <>(st \in {"ok", "err"})
 =============================================================================
